@@ -89,6 +89,8 @@ type ProdTable struct {
 	Reducers []*ssa.Function
 	Rows     []*ProdRow
 	Wrapper  *ssa.Function // default-field wrapping helper (role)
+	WOp      int           // index among Wrapper.Params of the operand (*Expression)
+	WFld     int           // index among Wrapper.Params of the field name (string-kinded; may be the receiver)
 	Errs     []string
 }
 
@@ -108,7 +110,7 @@ func (c *Ctx) prodTable0() *ProdTable {
 		pt.Errs = append(pt.Errs, tb.Err)
 		return pt
 	}
-	pt.Wrapper = c.defaultFieldWrapper()
+	pt.Wrapper, pt.WOp, pt.WFld = c.defaultFieldWrapper()
 	for _, e := range tb.Entries {
 		if e.Fn == nil {
 			pt.Errs = append(pt.Errs, "reducer entry "+e.KeyName+" is not a function")
@@ -140,23 +142,46 @@ func (c *Ctx) prodTable0() *ProdTable {
 	return pt
 }
 
-// defaultFieldWrapper resolves the role "function in package reduce of type
-// func(*expr.Expression, string) *expr.Expression".
-func (c *Ctx) defaultFieldWrapper() *ssa.Function {
-	var cands []*ssa.Function
+// defaultFieldWrapper resolves the role "function or method in package reduce that takes an operand
+// (*expr.Expression) and the field name (a string-kinded value; it may be the receiver of a method on a named
+// string type) and returns *expr.Expression". Returns the function and the indices of the two among its
+// SSA parameters (a receiver is parameter 0).
+func (c *Ctx) defaultFieldWrapper() (*ssa.Function, int, int) {
+	type cand struct {
+		f       *ssa.Function
+		op, fld int
+	}
+	var cands []cand
 	for _, f := range c.Funcs {
-		if fnPkgPath(f) != pkgReduce || f.Parent() != nil || f.Signature.Recv() != nil {
+		if fnPkgPath(f) != pkgReduce || f.Parent() != nil || len(f.Params) != 2 || f.Synthetic != "" {
 			continue
 		}
-		ps, rs := f.Signature.Params(), f.Signature.Results()
-		if ps.Len() == 2 && rs.Len() == 1 && isExprPtr(ps.At(0).Type()) && isExprPtr(rs.At(0).Type()) && isStringType(ps.At(1).Type()) {
-			cands = append(cands, f)
+		rs := f.Signature.Results()
+		if rs.Len() != 1 || !isExprPtr(rs.At(0).Type()) {
+			continue
+		}
+		op, fld := -1, -1
+		for i, p := range f.Params {
+			if isExprPtr(p.Type()) {
+				op = i
+			} else if b, ok := p.Type().Underlying().(*types.Basic); ok && b.Info()&types.IsString != 0 {
+				fld = i
+			}
+		}
+		if op >= 0 && fld >= 0 {
+			cands = append(cands, cand{f, op, fld})
 		}
 	}
 	if len(cands) == 1 {
-		return cands[0]
+		return cands[0].f, cands[0].op, cands[0].fld
 	}
-	return nil
+	return nil, 0, 1
+}
+
+// wrapperIdx: operand and field parameter indices of the default-field wrapper (memoised through prodTable).
+func (c *Ctx) wrapperIdx() (int, int) {
+	pt := c.prodTable()
+	return pt.WOp, pt.WFld
 }
 
 func isExprPtr(t types.Type) bool {
@@ -719,10 +744,26 @@ func (c *Ctx) ctorArg(a ssa.Value, e *env, p *Path, window ssa.Value, wrapper *s
 	arg := CtorArg{Pos: -1, Val: v}
 	if call, ok := v.(*ssa.Call); ok && wrapper != nil && call.Call.StaticCallee() == wrapper {
 		// wrapped only if the helper receives the reducer's own default-field parameter unchanged
-		if len(call.Call.Args) == 2 && c.resolve(call.Call.Args[1], e) == ssa.Value(p.Fn.Params[len(p.Fn.Params)-1]) {
-			arg.Wrapped = true
+		_, wop, wfld := c.defaultFieldWrapper()
+		if len(call.Call.Args) == 2 {
+			fv := c.resolve(call.Call.Args[wfld], e)
+			// a conversion to the wrapper's own field type (a named string type) hands the same name on
+			for {
+				if cv, ok := fv.(*ssa.ChangeType); ok {
+					fv = c.resolve(cv.X, e)
+					continue
+				}
+				if cv, ok := fv.(*ssa.Convert); ok && isStringKind(cv.X.Type()) && isStringKind(cv.Type()) {
+					fv = c.resolve(cv.X, e)
+					continue
+				}
+				break
+			}
+			if fv == ssa.Value(p.Fn.Params[len(p.Fn.Params)-1]) {
+				arg.Wrapped = true
+			}
 		}
-		v, e = c.resolveE(call.Call.Args[0], e)
+		v, e = c.resolveE(call.Call.Args[wop], e)
 	}
 	if i, fe, asserted, ok := c.elemRef(v, e, window); ok {
 		arg.Pos = fix(abs(i, fe))
@@ -790,4 +831,9 @@ func fieldLoad(c *Ctx, v ssa.Value, e *env) (base ssa.Value, name string) {
 		return c.resolve(x.X, e), fieldName(x.X.Type(), x.Field)
 	}
 	return nil, ""
+}
+
+func isStringKind(t types.Type) bool {
+	b, ok := t.Underlying().(*types.Basic)
+	return ok && b.Info()&types.IsString != 0
 }
